@@ -420,6 +420,15 @@ def r5(ctx, R):
             R.bad(ga, c[0], "not every reference read is recorded (guards: %s)" % sorted(g))
         if q.rnorm(ga, c[0].args[0].elts[1]) != "self.namespace[name]":
             R.bad(ga, c[0], "recorded object is not the reference that was read")
+    mg = ctx.func("ModelImpl.get_attr")
+    R.inst("ModelImpl.get_attr records the model-level reference it hands out (`_model.<name>` in a formula)")
+    c = q.calls(mg, name="append", recv_endswith="refstack")
+    rr = [r_ for r_ in q.returns(mg) if q.anorm(mg, r_.value) == "self.global_refs[name].interface"]
+    if not c or not rr or q.anorm(mg, c[0].args[0].elts[1]) != "self.global_refs[name]" or \
+            not all(q.path_between(mg, c[0], r_) for r_ in rr) or \
+            set(q.guards_of(mg, c[0])) - set(q.guards_of(mg, rr[0])) != {("self.system.callstack.counter", "T")}:
+        R.bad(mg, mg.node, "a model-level reference read as _model.<name> is not recorded: precedents() omits it",
+              stmt="refstack.append in ModelImpl.get_attr")
     mp = ctx.func("Model.path")
     R.inst("Model.path getter records property_refs['path']")
     c = q.calls(mp, name="append", recv_endswith="refstack")
